@@ -116,7 +116,7 @@ def run(ctx):
         progs['lit%d' % j] = q_
     # the fixed enumeration of register / hardware-statement shapes (tools/lib/gen_c.py, family E)
     from lib.gen_c import directed_programs
-    progs.update({k: p for k, p in directed_programs().items() if k.startswith('E_')})
+    progs.update({k: p for k, p in directed_programs().items() if k.startswith('E_') or k.startswith('H_asm')})
     viol = []
     stats = {'agree': 0, 'undecided': 0, 'unsupported': 0, 'programs': 0, 'events': 0}
     marked_bad = []
@@ -169,6 +169,15 @@ def run(ctx):
                     if marked_of(norm_lines(f['gen'])) != marked_of(norm_lines(f['opt'])):
                         marked_bad.append({'why': 'optimiser changed the sequence of protected instructions / inline lines',
                                            'source': progs[pid].source(), 'function': f['name'], 'level': O})
+            # a conditional branch right after inline assembly tests flags the compiler knows nothing about
+            for f in r.get('funcs', []):
+                ls = norm_lines(f['final']) if f.get('final') is not None else []
+                for i_, l_ in enumerate(ls[:-1]):
+                    if l_[0] == 'N':
+                        nxt = next((x for x in ls[i_ + 1:] if x[0] in ('I', 'L', 'N')), None)
+                        if nxt is not None and nxt[0] == 'I' and nxt[1] in ('BEQ', 'BNE', 'BMI', 'BPL', 'BCC', 'BCS'):
+                            marked_bad.append({'why': 'a conditional branch (%s %s) directly follows inline assembly: it tests flags the source says nothing about' % (nxt[1], nxt[6]),
+                                               'source': progs[pid].source(), 'function': f['name'], 'level': O})
             if pid in twins and vs['without']['status'] == 'ok':
                 ok[pid] = vs
         ce = coexec(ok, 8 if quick else 24, rng, fuel=60000)
